@@ -114,7 +114,12 @@ def classify(body):
                 ia = [i for _, i, _ in label_indexes(ops[0])]
                 ib = [i for _, i, _ in label_indexes(ops[1])]
                 if len(ia) == 1 and len(ib) == 1 and ia[0] != ib[0]:
-                    return "pair-unordered"
+                    # what is compared: the whole labels, or a projection of them (only the name, ...)?
+                    pa, pb = peel(ops[0]), peel(ops[1])
+                    if pa.get("k") == "Index" and pb.get("k") == "Index":
+                        return "pair-unordered"
+                    proj = sorted({(c.get("name") or strip_generics(call_name(c) or "?").split("::")[-1]) for o in ops for c in calls_in(o)})
+                    return "pair-ordered-by-" + "+".join(proj) if proj else "pair-ordered-by-projection"
         return "positional"
     return "positional"
 
@@ -275,8 +280,13 @@ def run(ctx):
         cs = [c for c in nonforeign_calls(f) if c.is_(inner)]
         derefs = [c for c in nonforeign_calls(f) if c.is_("Deref::deref")]
         ok = len(cs) == 1 and all(sym_is_call(a, "Deref::deref") for a in arg_syms(cs[0])[: (1 if meth == "hash" else 2)])
-        # no direct field access to ptr/metadata
-        direct = any(isinstance(e, dict) and e.get("f") in ("ptr", "metadata") for _, _, s in f.body.stmts() if s["k"] == "assign" for e in (s["rv"].get("p", {}).get("pr") or []))
+        # no direct look at the representation, and the result is exactly the delegated call's result
+        from props.common import region_tokens
+
+        direct = any(tok in (".ptr", ".metadata") for tok, _ in region_tokens(f))
+        if meth != "hash":
+            r0 = strip_sym(Sym(f).local(0))
+            ok = ok and sym_is_call(r0, inner)
         chk.ob("C03.d", f.path, ok and not direct, f"{meth}() delegates to the target's {inner} through deref() only" if ok and not direct else f"{meth}() looks at the representation (ptr/metadata) or does not delegate through deref()", f.loc())
     for ty, fields in (("metrics::label::Label", ["0", "1"]), ("metrics::key::KeyName", ["0"])):
         adt = m.adts.get(ty)
